@@ -169,10 +169,10 @@ Definition tie_op (op : zop) (o : list Z) : bool :=
 Definition tie_ok (c : case) : bool := all2 tie_op (c_ops c) (c_obs c).
 
 (* ---- Monte Carlo SEARCH oracle (a statistical test, used only to look for a failing configuration after a proof or the
-        tie broke; never counted as an obligation): mean relative error within 4 standard errors (+ 0.2 % for the known small
-        biases of the fitted estimators) of 0, and the s-sigma interval covering the truth at no less than the nominal rate
+        tie broke; never counted as an obligation): mean relative error within z standard errors (+ a tolerated systematic
+        bias) of 0, and the s-sigma interval covering the truth at no less than the nominal rate
         minus 4 binomial standard errors ---- *)
-Definition mc_op (op : zop) (o : list Z) : bool :=
+Definition mc_op (z : float) (op : zop) (o : list Z) : bool :=
   let '(code, a) := op in
   if negb (code =? 8) then true else
   match o with
@@ -182,14 +182,19 @@ Definition mc_op (op : zop) (o : list Z) : bool :=
       let mean := PrimFloat.div (F sum) tf in
       let var := PrimFloat.sub (PrimFloat.div (F sumsq) tf) (PrimFloat.mul mean mean) in
       let se := PrimFloat.sqrt (PrimFloat.div (if PrimFloat.ltb var 0 then 0%float else var) tf) in
-      let slack := PrimFloat.add (PrimFloat.mul 4 se) 0x1.0624dd2f1a9fcp-9%float in
+      (* tolerated systematic bias of the fitted estimators: 0.2 % + 5 % of 1/sqrt(k) (they are visibly biased at k = 16) *)
+      let k := pow2f (zN (nth 1 a 0)) in
+      let bias := PrimFloat.add 0x1.0624dd2f1a9fcp-9%float (PrimFloat.div 0x1.999999999999ap-5%float (PrimFloat.sqrt k)) in
+      let slack := PrimFloat.add (PrimFloat.mul z se) bias in
       let cov_ok (c : Z) (nominal : float) :=
         let sd := PrimFloat.sqrt (PrimFloat.div (PrimFloat.mul nominal (PrimFloat.sub 1 nominal)) tf) in
-        PrimFloat.leb (PrimFloat.sub nominal (PrimFloat.mul 4 sd)) (PrimFloat.div (u2f (zN c)) tf) in
+        PrimFloat.leb (PrimFloat.sub nominal (PrimFloat.mul z sd)) (PrimFloat.div (u2f (zN c)) tf) in
       PrimFloat.leb (PrimFloat.abs mean) slack &&
       cov_ok c1 0x1.5d8c7e28240b8p-1%float && cov_ok c2 0x1.e8b4395810625p-1%float && cov_ok c3 0x1.fe9e1b089a027p-1%float
   | _ => false
   end.
-Definition mc_ok (c : case) : bool := all2 mc_op (c_ops c) (c_obs c).
+(* 4 sigma while searching for a failing configuration, 5 sigma for the always-on labelled test *)
+Definition mc_ok (c : case) : bool := all2 (mc_op 4) (c_ops c) (c_obs c).
+Definition mc_ok5 (c : case) : bool := all2 (mc_op 5) (c_ops c) (c_obs c).
 
-Definition oracles : list (Z * (case -> bool)) := [(0, prop_ok); (1, tie_ok); (2, mc_ok)].
+Definition oracles : list (Z * (case -> bool)) := [(0, prop_ok); (1, tie_ok); (2, mc_ok); (3, mc_ok5)].
